@@ -392,7 +392,11 @@ def key_split_prompt(line, impl, model):
             if data and sim.alive:
                 sim.type(data)
         elif f[0] in ("ex", "rup") and not sim.alive and (res.startswith("x:") or res.startswith("t:")):
-            tail = unhx(res.split(":")[-1])
+            # what the call consumed ends with: before + match + after, or the text + the own prompt
+            if res.startswith("x:"):
+                tail = b"".join(unhx(x) for x in res.split(":")[2:5])
+            else:
+                tail = unhx(res.split(":")[1]) + (unhx(f[1][1:]) if f[1] != "-" else b"")
             if any(tail.endswith(PROMPT[:k]) for k in range(1, len(PROMPT))):
                 return True
     return False
